@@ -403,3 +403,19 @@ Theorem C05_mapor_nk_ok (H : list (oprec (mop oop))) :
   mohist_ok_nk H -> forall (s : cmap orswot) (K : gset nat), moreach_nk H s K -> mapor_nk_ok H K s = true.
 Proof. exact (mapor_nk_ok_reach H). Qed.
 Print Assumptions C05_mapor_nk_ok.
+
+(** Map<K1, Map<K2, Orswot>> when no key is ever removed, per-actor delivery with duplicates AND merges: the member sentence at depth 2
+    and the complete-state decider (proofs/MapMapOrswotNK.v) *)
+From Crdt Require Import model.Orswot model.Map spec.System spec.OrswotSpec spec.OrswotSystem spec.MapSpec spec.MapSystem spec.MapOrswotSpec spec.MapMapOrswotSpec spec.MapMapOrswotNKSpec proofs.MapMapOrswotNK.
+Theorem C05_map2_nk_member_sentence (H : list (oprec (mop (mop oop)))) :
+  m2hist_ok_nk H -> forall (s : cmap (cmap orswot)) (K : gset nat) (k1 k2 m : N), m2reach_nk H s K ->
+  (m ∈ dom (m2_state_entries s k1 k2) <->
+   exists d ms, MUp d k1 (MUp d k2 (OAdd d ms)) ∈ known_ops H K /\ m ∈ ms /\
+     ~ exists d' c ms', MUp d' k1 (MUp d' k2 (ORm c ms')) ∈ known_ops H K /\ m ∈ ms' /\ dcounter d <= vget c (dactor d)).
+Proof. exact (map2_member_iff_nk H). Qed.
+Print Assumptions C05_map2_nk_member_sentence.
+
+Theorem C05_map2_nk_ok (H : list (oprec (mop (mop oop)))) :
+  m2hist_ok_nk H -> forall (s : cmap (cmap orswot)) (K : gset nat), m2reach_nk H s K -> map2_nk_ok H K s = true.
+Proof. exact (map2_nk_ok_reach H). Qed.
+Print Assumptions C05_map2_nk_ok.
